@@ -79,6 +79,7 @@ func loadEngine(repoDir string, pkgPaths []string) (*Engine, error) {
 	e := &Engine{prog: prog, pkgs: pkgs, contracts: map[string]*Contract{}, preds: map[string]*Pred{}, ghosts: map[string]*GhostFunc{},
 		droppedCand: map[string]map[string]bool{}, files: map[*token.File]*ast.File{}, mutableGlobal: map[*ssa.Global]bool{},
 		funcs: map[string]*ssa.Function{}, repoDir: repoDir, timeoutMs: 10000, solverSem: make(chan struct{}, 16)}
+	e.ghosts["sendtries"] = &GhostFunc{Name: "sendtries", Field: true, Ret: "Int"}
 	packages.Visit(pkgs, nil, func(p *packages.Package) {
 		if e.fset == nil && p.Fset != nil {
 			e.fset = p.Fset
